@@ -86,6 +86,8 @@ def main(mod, argv=None) -> int:
     import signal
 
     faulthandler.register(signal.SIGUSR1, all_threads=True)
+    if os.environ.get("KIO_VERIF_SUBPASS"):
+        _die_with_parent()
     try:
         core.import_kio()
         if args.replay:
@@ -249,6 +251,21 @@ def _run(mod, args, timer) -> int:
 OPT_SCALE = {"quick": 0.25, "thorough": 0.15}
 
 
+def _die_with_parent() -> None:
+    """The sub-pass must not outlive a parent that was killed (e.g. by `timeout`)."""
+    import threading
+
+    parent = os.getppid()
+
+    def watch():
+        while True:
+            core.time.sleep(2.0)
+            if os.getppid() != parent:
+                os.killpg(os.getpgid(0), 9) if os.getpgid(0) == os.getpid() else os._exit(3)
+
+    threading.Thread(target=watch, daemon=True, name="parent-watch").start()
+
+
 def _start_opt_pass(mod, args, seed: int, tier: str):
     """A slice of the same check under `python -O` (asserts and `if __debug__:` blocks are stripped
     from kio as well): an interpreter configuration production may use and the test-suite never does.
@@ -262,7 +279,8 @@ def _start_opt_pass(mod, args, seed: int, tier: str):
     env = {**os.environ, "KIO_VERIF_SUBPASS": "optimize", "KIO_VERIF_WORKERS": str(max(2, core.n_workers() // 4))}
     cmd = [sys.executable, "-O", "-m", "sim", mod.PROP, "--tier", tier, "--seed", str(seed ^ 0x4F50), "--scale",
            str(args.scale * OPT_SCALE[tier]), "--no-evidence"]
-    return subprocess.Popen(cmd, env=env, cwd=core.VERIF, stdout=subprocess.PIPE, stderr=subprocess.STDOUT, text=True)
+    return subprocess.Popen(cmd, env=env, cwd=core.VERIF, stdout=subprocess.PIPE, stderr=subprocess.STDOUT, text=True,
+                            start_new_session=True)
 
 
 def _finish_opt_pass(mod, proc) -> tuple[int, dict | None]:
